@@ -204,6 +204,7 @@ func runC12(c *Check) {
 	ruleDecodersOverwrite(c, p)
 	ruleDecodersAcceptEmptyEncoding(c, p)
 	ruleCodecsArePure(c, p, "C12-R10")
+	ruleDecodersWriteFreshStorage(c, p, "C12-R11")
 }
 
 // ruleCodecsArePure (C12-R10): the bytes of a value are a function of the value. The encoders,
@@ -1669,4 +1670,119 @@ func ruleDecodersAcceptEmptyEncoding(c *Check, p *Prog) {
 	if n < 4 {
 		c.Unk(rule, "anchor-count", "", "", fmt.Sprintf("anchor lost: only %d binary decoders of wire types found", n))
 	}
+}
+
+// ruleDecodersWriteFreshStorage (C12-R11): a decoder fills its receiver with what the message
+// says, in storage of its own. A decoder that reuses what the receiver's slice fields point to
+// (append(h.X[:0], …), copy(h.X, …)) writes through to every value that shares that storage — an
+// earlier decoded header copied by value, a slice the receiver was initialised with: their hash
+// changes under them and their signature stops verifying.
+func ruleDecodersWriteFreshStorage(c *Check, p *Prog, rule string) {
+	c.Doc(rule, "VP: in the FromProto / UnmarshalBinary methods of the wire types no append grows, and no copy targets, a slice read from the receiver's own fields: decoded bytes live in fresh storage (or alias the message), never in storage another value may share.")
+	n := 0
+	for _, fn := range p.Funcs {
+		pk := fnPkg(fn)
+		if pk == nil || pk.Pkg.Path() != rootPath+"/types" || fn.Blocks == nil || fn.Signature.Recv() == nil {
+			continue
+		}
+		if nm := fn.Name(); nm != "FromProto" && nm != "UnmarshalBinary" {
+			continue
+		}
+		n++
+		recv := fn.Params[0]
+		fromRecv := func(v ssa.Value) bool {
+			// v is (a slice of) a load of a field reached from the receiver
+			for d := 0; d < 6 && v != nil; d++ {
+				switch x := v.(type) {
+				case *ssa.Slice:
+					v = x.X
+				case *ssa.UnOp:
+					v = x.X
+				case *ssa.FieldAddr:
+					if x.X == ssa.Value(recv) {
+						return true
+					}
+					v = x.X
+				case *ssa.Field:
+					v = x.X
+				case *ssa.IndexAddr:
+					v = x.X
+				default:
+					return false
+				}
+			}
+			return false
+		}
+		// the field was given fresh storage just before (x.F = make(…); copy(x.F, …)): the load
+		// that yields the destination follows, in its block, a store of a new slice to the same field
+		freshlyAssigned := func(v ssa.Value) bool {
+			for d := 0; d < 4 && v != nil; d++ {
+				if sl, ok := v.(*ssa.Slice); ok {
+					v = sl.X
+					continue
+				}
+				ld, ok := v.(*ssa.UnOp)
+				if !ok {
+					return false
+				}
+				fa, ok := ld.X.(*ssa.FieldAddr)
+				if !ok {
+					return false
+				}
+				fresh := false
+				for _, in := range ld.Block().Instrs {
+					if in == ssa.Instruction(ld) {
+						return fresh
+					}
+					st, ok := in.(*ssa.Store)
+					if !ok {
+						continue
+					}
+					fa2, ok := st.Addr.(*ssa.FieldAddr)
+					if !ok || fa2.Field != fa.Field || fa2.X != fa.X {
+						continue
+					}
+					sv := st.Val
+					if ct, ok := sv.(*ssa.ChangeType); ok {
+						sv = ct.X
+					}
+					_, fresh = sv.(*ssa.MakeSlice)
+				}
+				return false
+			}
+			return false
+		}
+		bad := ""
+		for _, b := range fn.Blocks {
+			for _, in := range b.Instrs {
+				call, ok := in.(*ssa.Call)
+				if !ok {
+					continue
+				}
+				bi, ok := call.Common().Value.(*ssa.Builtin)
+				if !ok || len(call.Common().Args) < 2 {
+					continue
+				}
+				if (bi.Name() == "append" || bi.Name() == "copy") && fromRecv(call.Common().Args[0]) && !freshlyAssigned(call.Common().Args[0]) {
+					// appending a decoded element to the receiver's own list, emptied first, is the
+					// normal way to fill a list; what is refused is the reuse of byte storage
+					if et, ok := call.Common().Args[0].Type().Underlying().(*types.Slice); ok {
+						if bt, ok := et.Elem().Underlying().(*types.Basic); ok && bt.Kind() == types.Byte {
+							bad = p.InstrPos(in)
+						}
+					}
+				}
+			}
+		}
+		inst := fnShort(fn) + " ⟂ decoded bytes in fresh storage"
+		if bad == "" {
+			c.OK(rule, inst, fnName(fn), p.Pos(fn.Pos()), "no byte slice of the receiver is reused as the destination of decoded bytes", true)
+		} else {
+			c.Bad(rule, inst, fnName(fn), bad, "the decoder writes decoded bytes into the storage a slice field of its receiver already points to (append(x.F[:0], …) / copy(x.F, …)): a value that shares that storage — an earlier decoded header copied by value, a slice the receiver was initialised with — is rewritten by the next decode; its hash changes and its signature no longer verifies", nil)
+		}
+	}
+	if n == 0 {
+		c.Unk(rule, "anchor-count", "", "", "anchor lost: no decoder methods in package types")
+	}
+	c.MinInstances(rule, 8)
 }
